@@ -304,7 +304,7 @@ static void body_reuse(Tape &t, Ctx &c) {
 		d.o = of;
 		d.apply_params();
 		d.s->flush = NO_FLUSH; d.s->end_of_stream = 0; d.s->hufftables = fresh.s->hufftables; d.s->avail_in = 0;
-		d.out.clear(); d.pending.clear(); d.total_fed = d.total_consumed = 0; d.calls = 0;
+		d.out.clear(); d.pending.clear(); d.total_fed = d.total_consumed = 0; d.calls = 0; d.eos_announced = false;
 		runB(d);
 		what = fmt("compress A (%zu bytes, level %d, gzip_flag %d, %s), %s, compress B (%zu bytes, level %d, gzip_flag %d)", n, levelA, gzA, complete_a ? "completed" : "abandoned mid-stream", use_reset ? "isal_deflate_reset" : "isal_deflate_init", B.size(), level, gz);
 		{
